@@ -45,6 +45,7 @@ class Arr:
     maskalias: frozenset = E  # inputs whose mask buffer this value's mask may share (numpy.ma.array(x, mask=m) does not copy m)
     validof: frozenset = E  # boolean array that is the negation of these values' masks: true exactly at their valid cells
     hardmask: bool = False  # harden_mask() in force: item stores cannot uncover missing cells (A26)
+    filledwith: object = None  # plain result of x.filled(v): (mask coverage of x, source text of v)
 
 
 @dataclass(frozen=True)
@@ -2079,7 +2080,9 @@ class ArrayInterp(Interp):
         if meth == "compressed":
             return replace(base, kind="plain", M=E, shape="flat", alias=self.S(e), maskof=E, dataof=E)
         if meth == "filled":
-            return replace(base, kind="plain", M=E, Pc=base.Pc, alias=self.S(e), maskof=E, dataof=E, D=base.D)
+            fv_node = e.args[0] if e.args else next((k.value for k in e.keywords if k.arg == "fill_value"), None)
+            return replace(base, kind="plain", M=E, Pc=base.Pc, alias=self.S(e), maskof=E, dataof=E, D=base.D,
+                           filledwith=(base.M if base.kind == "masked" else E, _src(fv_node) if fv_node is not None else None))
         if meth == "clip":
             lo = A[0] if A else K.get("min")
             hi = A[1] if len(A) > 1 else K.get("max")
